@@ -332,7 +332,21 @@ class Real:
                           f"TunnelEndpoint.{opname}:spurious-raw-send",
                           f"{opname} handed {e[2].hex()} for {e[1]} to the wrapped endpoint's send()")
             elif e[0] == "data":
-                self._bad(f"TunnelEndpoint.{opname}:spurious-send_data", f"{opname} called send_data")
+                # somebody other than TunnelEndpoint.send hands a packet to send_data (e.g. a flush of the queue when a
+                # circuit completes): allowed by the property iff that circuit is usable and the packet was waiting
+                _, cid, target, dst, org, data = e
+                c, why = self.circuit_ok(cid)
+                if not self.att:
+                    why = why or "no tunnel community is attached to the endpoint"
+                if why:
+                    self._bad(f"TunnelEndpoint.send_queue flushed by {opname}:bad-circuit",
+                              f"{opname} handed the queued packet {data.hex()[:48]}… to send_data over circuit {cid}: {why} "
+                              f"(configured length {self.hops})")
+                elif (dst, data) not in getattr(self, "queue_before", []):
+                    self._bad(f"TunnelEndpoint.send_queue flushed by {opname}:altered-packet",
+                              f"{opname} called send_data with ({dst}, {data.hex()[:48]}…), which was not waiting in the queue")
+                elif tuple(org) != ("0.0.0.0", 0):
+                    self._bad(f"TunnelEndpoint.send_queue flushed by {opname}:origin", f"send_data origin {org}")
         self.check_queue()
 
     def check_queue(self):
@@ -461,6 +475,7 @@ class Real:
 
     def quiet(self, name, fn):
         self.log.clear()
+        self.queue_before = list(self.ep.send_queue)
         exc = None
         try:
             fn()
@@ -551,6 +566,27 @@ class Real:
                     except k.InvalidStateError:
                         pass    # `ready` future already resolved (hop beyond goal_hops); the hop is appended anyway
             return self.quiet("env", add)
+        if kind == "created":
+            # the LAST hop of a circuit is verified through the real TunnelCommunity._ours_on_created_extended (a CREATED /
+            # EXTENDED answer with a valid handshake), not by the harness appending to the hop list
+            c = self.circuit_at(op[1])
+            if c is None or not self.real_tc or len(c_hops(c)) != c.goal_hops - 1 or c_closing(c):
+                return self.do(("hop",) + tuple(op[1:]))
+            from ipv8.messaging.anonymization.caches import RetryRequestCache
+            from ipv8.messaging.anonymization.payload import CreatedPayload
+            tc = self.tc
+
+            def answer():
+                hop = k.tunnel.Hop(k.hop_peers[op[2]], flags=None if op[3] is None else list(op[3]))
+                hop.dh_secret, hop.dh_first_part = tc.crypto.generate_diffie_secret()
+                c.unverified_hop = hop
+                if tc.request_cache.has(RetryRequestCache, c.circuit_id):
+                    tc.request_cache.pop(RetryRequestCache, c.circuit_id)
+                cache = RetryRequestCache(tc, c, [], 1, tc.send_initial_create, tc.settings.next_hop_timeout)
+                tc.request_cache.add(cache)
+                _, y, auth = tc.crypto.generate_diffie_shared_secret(hop.dh_first_part, k.keys[op[2] % 4])
+                tc._ours_on_created_extended(c.circuit_id, CreatedPayload(c.circuit_id, cache.packet_identifier, y, auth, b""))
+            return self.quiet("TunnelCommunity._ours_on_created_extended", answer)
         if kind == "close":
             c = self.circuit_at(op[1])
             if c is not None:
@@ -900,7 +936,7 @@ def line_of(op) -> str:
         return f"settc {int(op[1])} {op[2]}"
     if kind == "newc":
         return f"newc {op[1]} {op[2]}"
-    if kind == "hop":
+    if kind in ("hop", "created"):
         fl = "none" if op[3] is None else "[" + ",".join(map(str, op[3])) + "]"
         return f"hop {op[1]} {op[2]} {fl}"
     if kind in ("close", "rm"):
@@ -948,8 +984,8 @@ def op_from_json(j):
         return ("burst", j[1], j[2], bytes.fromhex(j[3]), j[4])
     if kind == "overlay":
         return ("overlay", bytes.fromhex(j[1]), bool(j[2]))
-    if kind == "hop":
-        return ("hop", j[1], j[2], None if j[3] is None else list(j[3]))
+    if kind in ("hop", "created"):
+        return (kind, j[1], j[2], None if j[3] is None else list(j[3]))
     if kind == "service":
         return ("service", bool(j[1]), [(bytes.fromhex(c), w) for c, w in j[2]])
     if kind == "pseudonym":
@@ -1374,8 +1410,16 @@ def overlay_tier(ctx: Ctx, n_scen: int, use_model: bool):
                     cs = list(real.tc.circuits.values())
                     want_i = [i for i, c in enumerate(cs) if not c_closing(c) and len(c_hops(c)) < c.goal_hops]
                     if want_i:
-                        run_history(ctx, real, [("hop", rng.choice(want_i), rng.randrange(1, 10),
-                                                 rng.choice(FLAG_SETS[:6]))], lines, expect, record)
+                        run_history(ctx, real, [("created" if real.real_tc else "hop", rng.choice(want_i),
+                                                 rng.randrange(1, 10), rng.choice(FLAG_SETS[:6]))], lines, expect, record)
+                    elif real.real_tc and real.att and rng.random() < 0.5:
+                        # a data circuit of another length than the configured one appears and completes
+                        other = 1 if real.hops != 1 else 2
+                        idx = len(cs)
+                        ops = [("newc", other, 0)] + [("created" if j == other - 1 else "hop", idx, rng.randrange(1, 10), [4])
+                                                      for j in range(other)]
+                        ctx.count("overlay:data circuit of another length completes")
+                        run_history(ctx, real, ops, lines, expect, record)
                 elif r < 0.76:
                     run_history(ctx, real, [(rng.choice(["close", "rm"]), 0)], lines, expect, record)
                 elif r < 0.82 and not real.real_tc:
@@ -1695,7 +1739,15 @@ def life_script(rng, life: Life, ctr):
         idx = len(real.tc.circuits)      # index the new circuit will have
         yield ("newc", hops, 0)
         for j in range(hops):
-            yield ("hop", idx, rng.randrange(1, 10), [4] if j == hops - 1 else [1])
+            yield ("created" if j == hops - 1 else "hop", idx, rng.randrange(1, 10), [4] if j == hops - 1 else [1])
+
+    def other_circuit():
+        # a data circuit of ANOTHER length with an IPv8 exit completes (built for something else: build_tunnels, REST, …)
+        other = 3 - hops
+        idx = len(real.tc.circuits)
+        yield ("newc", other, 0)
+        for j in range(other):
+            yield ("created" if j == other - 1 else "hop", idx, rng.randrange(1, 10), [4] if j == other - 1 else [1, 4])
 
     def send():
         ctr[0] += 1
@@ -1718,8 +1770,11 @@ def life_script(rng, life: Life, ctr):
             yield ("rmreq", 0, rng.choice([0, 1, 2]), via)
         for dt in rng.choice([[0.0, 1.0, 3.9, 0.1, 0.1], [2.5, 2.4, 0.1, 1.0], [4.9, 0.2], [5.0], [0.5, 0.5, 0.5, 3.5]]):
             yield send()
-            if rng.random() < 0.3:
+            r2 = rng.random()
+            if r2 < 0.3:
                 yield from mkready()
+            elif r2 < 0.55:
+                yield from other_circuit()      # … while packets wait in the queue
             yield ("tick", dt)
         yield send()
         yield from mkready()
@@ -1729,8 +1784,10 @@ def life_script(rng, life: Life, ctr):
         r = rng.random()
         if r < 0.35:
             yield send()
-        elif r < 0.5:
+        elif r < 0.47:
             yield from mkready()
+        elif r < 0.52:
+            yield from other_circuit()
         elif r < 0.68:
             yield ("rmreq", pick(), rng.choice([0, 0, 1, 2]),
                    rng.choice(["remove_circuit", "remove_circuit", "on_destroy", "remove_now"]))
@@ -1857,7 +1914,7 @@ REQUIRED_CLASSES = [
     "send:anon->dropped(no community)", "send:anon->send_data raised after 0 ok", "send:anon->send_data raised after 1 ok",
     "send:short-packet", "burst:overflow",
     "op:anon", "op:settc", "op:newc", "op:hop", "op:close", "op:rm", "op:cancreate", "op:fail", "op:listener",
-    "op:notify", "op:overlay", "op:unload", "op:tcinit", "op:tcdata", "op:rmreq", "op:tick", "op:docirc", "op:service",
+    "op:notify", "op:created", "op:overlay", "op:unload", "op:tcinit", "op:tcdata", "op:rmreq", "op:tick", "op:docirc", "op:service",
     "overlay:anonymize=True", "overlay:anonymize=False", "overlay:shared prefix, plain after anonymized",
     "overlay:shared prefix, anonymized after plain", "overlay:explicit set_anonymity(",
     "overlay:tunnel community constructed on the endpoint after 0", "overlay:tunnel community constructed on the endpoint after 1",
